@@ -384,7 +384,9 @@ def multiprocessing_run(
                     one_dim_array = input_arrays[dim]
                     run_indicies.append(find_nearest(one_dim_array, dim_input))
 
-                previous_run_data.append((run_num, run_indicies, case_result))
+                previous_run_data.append(
+                    MultiprocessingOutput(case_number=run_num, input_index=tuple(run_indicies), result=dict(case_result))
+                    )
 
             # Combine with any new results
             mp_results = mp_results + previous_run_data
